@@ -20,7 +20,7 @@ from vlib import gen, pedgen
 from vlib.oracles import model as M
 
 ID = "C14"
-TECHNIQUE = "runtime monitoring: return values of the real trace / posterior classes observed on generated traces (random within-step row order) and on traces emitted by the real call and pedigree samplers; independent Counter-over-canonical-multisets oracle"
+TECHNIQUE = "runtime monitoring: return values of the real trace / posterior classes observed on generated traces (random within-step row order) and on traces emitted by the real call and pedigree samplers; independent Counter-over-canonical-multisets oracle; program level: trace captured at CallingMCMC.fit inside mchap call, printed GT/GPM/SPM/MCI/AFP/ACP/AOP vs the functionals of the steps retained after --mcmc-burn"
 LEVEL = "exploration"
 LEVEL_TEXT = (
     "Exploration: on generated traces (1-4 chains x 1-400 steps x ploidy 1-6 x 0-6 sites for haplotype traces with random "
@@ -43,6 +43,7 @@ RULE = (
     "small pool of genotypes (shared or chain-specific weights, exact cycles for ties) or fully at random; non-trivial = "
     "the retained steps hold >= 2 distinct genotypes or >= 2 chains; distinct by hash of (trace bytes, burn, threshold)"
 )
+LEVEL_TEXT += ' At program level the full trace of every sample was captured inside mchap call (1-4 chains, several --mcmc-burn values and incongruence thresholds, masked alleles) and the printed GT/GPM/SPM/MCI/AFP/ACP/AOP equal the functionals of the retained steps to the printed precision; allele_frequencies is queried repeatedly on one object in varying order.'
 ASSUMPTIONS = [
     "allele traces given to GenotypeAllelesMultiTrace are sorted at every step (the samplers establish this; monitored separately on real sampler output)",
     "the CNV value 2 of the incongruence flag means: the compared chain modes jointly hold more than ploidy distinct haplotypes/alleles",
